@@ -56,6 +56,7 @@ class Observer:
         self.psk = psk or {}       # id data (bytes) -> psk bytes
         self.pubkeys = pubkeys or {}
         self.events = []
+        self.decoded = {}          # datagram id -> (session, decoded protected message)
 
     # -- DH secrets ----------------------------------------------------------------------------
     def shared_for(self, ke_i_hex, ke_r_hex):
@@ -110,6 +111,7 @@ class Observer:
             return
         if m['payloads']:
             self.clear_after_init.append((d.id, 'cleartext payloads next to SK'))
+        self.decoded[d.id] = (s, m)
         if not h['flags']['response']:
             s.requests[(from_init, h['msgid'])] = (m, d)
             if h['exchange'] == 35:
